@@ -112,3 +112,16 @@ Theorem C04_header_layout : forall order p0 p1 p2 p3 mtype hv version counts,
   nth off_has_vocabulary (make_fixed order p0 p1 p2 p3 mtype hv version) 0 = hv /\
   length (make_fixed order p0 p1 p2 p3 mtype hv version) = fixed_size.
 Proof. exact header_layout. Qed.
+
+(* ---- the file as a function of the model (C04/FileImage.v; compared byte for byte with every trie / trie -a / probing / rest file
+   the check writes).  Whatever the write method, and whatever vocabulary / search bytes the mapping held before the final ones were
+   in place, the bytes the build's system-call trace leaves in the file are exactly the model's file: header with the written type,
+   version, multiplier bits and recounted counts ++ SortedVocabulary region (sorted MurmurHash64A hashes) ++ the trie's search
+   structure (whose memory lookup is the table lookup: C03_trie_memory_is_table) ++ the vocabulary strings. *)
+From Kenlm Require Import LM.Defs C04.FileImage C04.FileImageProofs.
+Theorem C04_model_file_is_final_image : forall (array : bool) cfg pm n t pz words (iv : bool) wm vocab1 search1,
+  (2 <= n <= max_order)%nat -> Forall nn words ->
+  length vocab1 = length (sorted_vocab_bytes words) -> length search1 = length (C03.TrieImage.trie_image array cfg n t pz) ->
+  map Z.of_nat (CrashProofs.final_image wm iv (contents_of (trie_written array cfg pm n t pz words) iv vocab1 search1))
+  = trie_file array cfg pm n t pz words iv.
+Proof. exact model_file_is_final_image. Qed.
